@@ -1,7 +1,7 @@
 ---- MODULE MCSession ----
 EXTENDS Session
 T(id, names) == [id |-> id, names |-> names]
-MCGood == { T("i1", {"i1"}), T("t2", {"t2"}), T("a3", {"a3"}), T("m4", {"m4"}), T("s4", {"s4"}), T("t2b", {"t2"}) }
-MCGoodQuick == { T("i1", {"i1"}), T("t2", {"t2"}), T("a3", {"a3"}), T("m4", {"m4"}), T("s4", {"s4"}) }
+MCGood == { T("e5", {"e5"}), T("i1", {"i1"}), T("t2", {"t2"}), T("a3", {"a3"}), T("m4", {"m4"}), T("s4", {"s4"}), T("t2b", {"t2"}) }
+MCGoodQuick == { T("e5", {"e5"}), T("i1", {"i1"}), T("t2", {"t2"}), T("a3", {"a3"}), T("m4", {"m4"}), T("s4", {"s4"}) }
 MCBad == { "x-syntax", "x-typedefs-then-rejected", "x-unknown-top", "x-second-module-rejected" }
 ====
